@@ -583,7 +583,7 @@ func evalModTarget(env *SpecEnv, item string) (cell *Sort, ref *Term, elemT type
 	// a captured variable of the closure under verification: the cell it lives in
 	if env.fr != nil {
 		for i, fv := range env.fr.fn.FreeVars {
-			if fv.Name() == item && i < len(env.fr.bindings) {
+			if (fv.Name() == item || item == fmt.Sprintf("#%d", i)) && i < len(env.fr.bindings) {
 				T := elemType(fv.Type())
 				return sortOf(T), env.fr.bindings[i], T, true
 			}
